@@ -544,6 +544,91 @@ def r02_7(run):
         raise AnalysisError(f"R02.7: only {covered} log-domain bodies could be interpreted (12 expected at least): the rule has gone blind")
 
 
+def r02_8(run):
+    """flattening / reshaping inside op code uses C element order.  The incoming gradient, NumPy's cumulative/reduction kernels over axis=None
+    and the final reshape back to the operand's shape all enumerate elements in C order; `ravel(order="K"|"A"|"F")` enumerates them in memory
+    (or Fortran) order, which differs for every non-C-contiguous operand -- gradients are silently permuted for transposed / F-ordered inputs."""
+    opmods = {c.module.name for c in run.project.operation_classes()}
+    n = 0
+    for fi in run.project.all_functions():
+        if fi.module.name not in opmods:
+            continue
+        for call in own_nodes(fi.node):
+            if not isinstance(call, ast.Call):
+                continue
+            leaf = (dotted(call.func) or "").split(".")[-1] or (call.func.attr if isinstance(call.func, ast.Attribute) else "")
+            if leaf not in ("ravel", "flatten", "reshape"):
+                continue
+            o = kw(call, "order")
+            n += 1
+            ok = o is None or (isinstance(o, ast.Constant) and o.value == "C")
+            run.ob("R02.8", loc(fi, call), fi.short, f"`{norm(call)[:50]}` enumerates elements in C order", ok,
+                   "default / explicit C order" if ok else
+                   f"order={norm(o)}: elements are read in memory order while the gradient and the reshape back use C order -- wrong pairing of "
+                   f"gradient entries for non-C-contiguous operands (transposes, F-ordered arrays)")
+    run.count("flatten/reshape calls in op modules", n)
+
+
+_MAYCOPY = {"reshape", "ravel"}
+_ALWAYSCOPY = {"flatten", "astype", "copy", "ascontiguousarray", "array"}
+
+
+def _c_contiguous(cfg, e, at, depth=0) -> bool:
+    """`e` is provably a freshly allocated C-ordered array (so reshape / ravel of it are views)"""
+    from ..cfg import reaching_defs
+    if depth > 4:
+        return False
+    if isinstance(e, ast.Call):
+        d = dotted(e.func) or ""
+        leaf = d.split(".")[-1] if d else (e.func.attr if isinstance(e.func, ast.Attribute) else "")
+        if kw(e, "order") is not None and norm(kw(e, "order")) != "'C'":
+            return False
+        if d.split(".")[0] in ("np", "numpy") and leaf in ("zeros", "ones", "empty", "full", "arange", "ascontiguousarray"):
+            return True
+        if isinstance(e.func, ast.Attribute) and leaf == "copy" and not d.startswith(("np.", "numpy.")):
+            return True  # ndarray.copy(): order='C'
+        return False
+    if isinstance(e, ast.Name):
+        defs = reaching_defs(cfg, e.id, at)
+        return bool(defs) and ENTRY not in defs and all(
+            not isinstance(cfg.stmt[d], ast.AugAssign) and getattr(cfg.stmt[d], "value", None) is not None
+            and _c_contiguous(cfg, cfg.stmt[d].value, d, depth + 1) for d in defs)
+    return False
+
+
+def r02_9(run):
+    """no store through a temporary that may be a copy.  `X.reshape(...)[i] = v` / `X.ravel()[i] += v` writes into X only when the reshape is a
+    view, i.e. when X is C-contiguous; for an array allocated like a transposed / F-ordered operand (zeros_like keeps the layout) the reshape
+    copies and the write is lost -- the gradient silently stays zero.  (`.flat[...]` always writes through.)"""
+    n = 0
+    for fi in run.project.all_functions():
+        cfg = None
+        for st in own_nodes(fi.node):
+            tgt = None
+            if isinstance(st, ast.Assign) and len(st.targets) == 1 and isinstance(st.targets[0], ast.Subscript):
+                tgt = st.targets[0].value
+            elif isinstance(st, ast.AugAssign) and isinstance(st.target, ast.Subscript):
+                tgt = st.target.value
+            if not isinstance(tgt, ast.Call):
+                continue
+            d = dotted(tgt.func) or ""
+            leaf = d.split(".")[-1] if d else (tgt.func.attr if isinstance(tgt.func, ast.Attribute) else "")
+            if leaf not in _MAYCOPY | _ALWAYSCOPY:
+                continue
+            recv = tgt.func.value if isinstance(tgt.func, ast.Attribute) and not d.startswith(("np.", "numpy.")) else (tgt.args[0] if tgt.args else None)
+            n += 1
+            if cfg is None:
+                cfg = build_cfg(run, fi)
+            at = cfg.node_for(st)
+            ok = leaf in _MAYCOPY and recv is not None and at is not None and _c_contiguous(cfg, recv, at)
+            run.ob("R02.9", loc(fi, st), fi.short, f"store through the temporary `{norm(tgt)[:50]}` reaches its receiver", ok,
+                   "the receiver is a freshly allocated C-ordered array: the reshape is a view" if ok else
+                   (f"`.{leaf}()` always copies: the store is lost" if leaf in _ALWAYSCOPY else
+                    f"`{norm(recv)[:30] if recv is not None else '?'}` is not provably C-contiguous (e.g. allocated *_like an operand, which keeps a transposed / "
+                    f"F-ordered layout): the reshape then copies and the store is lost -- the value (a gradient entry) silently stays as allocated"))
+    run.count("stores through reshape/ravel temporaries", n)
+
+
 def check(run):
     run.rule("R02.1", "derivative-table agreement in the term domain: for every closed-form op and operand k, the symbolic term of "
              "backward_var|index=k equals g * d(forward term)/dx_k at exact sample points of the kernel's domain (and simplifies to 0 where "
@@ -561,6 +646,13 @@ def check(run):
     run.do(r02_4)
     run.do(r02_5)
     run.do(r02_6)
+    run.rule("R02.8", "ravel / flatten / reshape calls in op modules use C element order", floor=20)
+    run.do(r02_8)
+    run.rule("R02.9", "no store through a reshape/ravel/flatten temporary unless its receiver is provably a fresh C-ordered array", floor=0)
+    run.do(r02_9)
+    run.control("R02.9", r02_9, [("math/sequential/ops.py", None, None,
+                                  "def _verif_control_r02_9(a, g):\n    out = np.zeros_like(a)\n    out.reshape(-1)[0] = g\n    return out")],
+                "write through out.reshape(-1) of a zeros_like buffer")
     run.rule("R02.7", "log-domain family (logaddexp, logaddexp2, softmax, logsoftmax, sigmoid, softmax-crossentropy, _softmax, logsumexp, gru.sig): "
              "finite operands and gradients give finite, nan-free forward values and gradients (extended-sign abstract interpretation of exp over/underflow)", floor=14)
     run.do(r02_7)
